@@ -174,7 +174,12 @@ CLAIMED = {
          'quotient/remainder, trichotomy); every combination is placed in PRINT, assignment-with-conversion, CONST and static DIM-bound '
          'contexts, compiled at -O0, -O1, -O2, -O3 and -O2 -g and run; Trace_QB.tla validates each level against the source semantics, so a '
          'level that rejects, crashes, or differs from -O0 or from the specified value/type/error is reported; generated whole programs '
-         'are validated at all levels the same way. Peephole windows are exercised through these programs, not yet enumerated as windows.',
+         'are validated at all levels the same way. (ii) Peephole.tla defines the straight-line instruction windows an expression can '
+         'compile to (admissible by the machine-level typing QVMTypes!Sig, one value left) and their VALUE by the value operators of '
+         'QBValues.tla; MC_Peephole.tla enumerates every admissible window up to 3 elements (4 in the thorough tier; longer ones by random '
+         'walks) over pushes of boundary constants of every type, variable reads, all conversions, all arithmetic/logic/comparison '
+         'instructions; each window is spliced into a compiled host program and run as written and after QvmCode.optimize(); '
+         'Trace_Peephole.tla compares both runs with the specified value or error, and the two runs with each other.',
     note='Trusted: TLC, generator/unparser, event observer. Float results outside the exact dyadic window are compared across levels only up to the first such value.',
     technique='TLC enumeration of constant expressions + TLA+ source semantics as oracle; trace validation of runs at every optimisation level',
     design='6 C02'),
